@@ -92,6 +92,12 @@ fn replay(prop: &str, path: &str) -> ! {
     if case.get("engine").and_then(|e| e.as_str()) == Some("cli") {
         cli::replay_cli(case);
     }
+    if case.get("engine").and_then(|e| e.as_str()) == Some("document") {
+        io_props::replay_document(case);
+    }
+    // whole-run comparisons (thread pools, histories on one thread, reduction trees, the Miri
+    // pass, aggregate counts): the recorded case names the plan; re-running the check re-executes it
     println!("{}", serde_json::to_string_pretty(&doc).unwrap());
-    machinery_error("replay not implemented for this case")
+    println!("this case is a comparison between whole runs; re-execute it with ./check {} quick|thorough", prop);
+    std::process::exit(0)
 }
